@@ -139,6 +139,14 @@ def _step_equal_one(cfg):
         if rk:
             ok, detail, where = False, f"NumPy engine: {rk[0][2]}", rk[0][1]
             break
+        sh = [e for e in p.events if e[0] in ("engine-state-shared", "class-attr-store")]
+        if sh:
+            ok, detail, where = False, sh[0][2], sh[0][1]
+            break
+        al = common.aliasing_event(p)
+        if al is not None:
+            ok, detail, where = False, f"NumPy engine: {al[2]} (CasADi values are immutable: the two runs diverge)", al[1]
+            break
         pa = {(repr(a[0]), a[1]) for a in p.assumptions}
         cands = [x for x in other.paths if {(repr(a[0]), a[1]) for a in x.assumptions} <= pa]
         q = max(cands, key=lambda x: len(x.assumptions)) if cands else None
